@@ -295,7 +295,18 @@ impl Cli {
         fake.configure(json!({}));
         let p = prepare(c);
         let file = fake.dir.join(if c.apx { "instance.apx" } else { "instance.af" });
-        std::fs::write(&file, &p.file_text).expect("cannot write instance");
+        // one ICCMA instance in thirteen carries a comment line with a Latin-1 byte (not UTF-8) after its
+        // header: the tool may refuse the file (non-zero exit, no answer) or must answer for the whole of it
+        let latin1_comment = !c.apx && c.case_mask % 13 == 7 && c.decor % 5 != 1 && c.decor % 5 != 4;
+        if latin1_comment {
+            let mut bytes = p.file_text.clone().into_bytes();
+            let at = bytes.iter().position(|b| *b == b'\n').map(|i| i + 1).unwrap_or(bytes.len());
+            bytes.splice(at..at, b"# caf\xe9 au lait\n".iter().copied());
+            std::fs::write(&file, &bytes).expect("cannot write instance");
+            rec.class("instance-with-a-non-utf8-comment-line");
+        } else {
+            std::fs::write(&file, &p.file_text).expect("cannot write instance");
+        }
         let g = G::new(c.g.n, &c.g.att_usize());
         let fams = match Fams::auto(&g) {
             Some(f) => f,
@@ -385,6 +396,11 @@ impl Cli {
         let tool = if c.tool == 0 { "solve" } else { "iccma23-wrapper" };
         let sig = format!("C05/{}/{}", tool, name);
         let ctx = || format!("argv {:?} file {:?} exit {:?} stdout {:?} stderr {:?}", args, p.file_text, out.code, out.stdout, out.stderr.chars().take(300).collect::<String>());
+        if latin1_comment && out.code != Some(0) && out.code.is_some() && repobin::answer_lines(&out.stdout).iter().all(|l| !repobin::looks_like_answer(l)) {
+            // refused as unreadable: allowed
+            rec.class("non-utf8-instance-refused-without-answer");
+            return Ok(());
+        }
         if out.code != Some(0) {
             return Err(Failure::new(format!("{}/non-zero-exit-on-valid-invocation", sig), ctx()));
         }
